@@ -126,6 +126,37 @@ def main():
             snap0 = s1                          # report each change once
         if probs:
             out["bad"].append({"operator": oname, "fault": kind, "problems": probs, "site": {"oracle": "operator-history"}})
+    # ---- one operator OBJECT applied several times: what an earlier application returned does not depend on the
+    #      later applications (nor on failed ones in between) ----
+    def f2(z, a, b=0.0):
+        return anp.sum(a * z * z * z) + b * z[0]
+    x1, x2, vv = onp.array([0.5, -1.0, 2.0]), onp.array([1.5, 0.25, -0.5]), onp.array([1.0, 0.5, -2.0])
+    for oname, mk, use in (("make_jvp", lambda: make_jvp(f2), lambda r: r(vv)[1]),
+                           ("make_vjp", lambda: make_vjp(f2), lambda r: r[0](2.0)),
+                           ("make_hvp", lambda: make_hvp(f2), lambda r: r[0](vv)),
+                           ("make_ggnvp", lambda: make_ggnvp(lambda z, a, b=0.0: z * a + b), lambda r: r(vv))):
+        out["n"] += 1
+        out["keys"].append("operator-reuse|" + oname)
+        try:
+            op = mk()
+            first = op(x1, 2.0)
+            fresh = onp.asarray(use(mk()(x1, 2.0))).tolist()
+            before = onp.asarray(use(first)).tolist()
+            op(x2, 5.0, b=3.0)
+            try:
+                op(x2, "not a number")
+            except Exception:
+                pass
+            after = onp.asarray(use(first)).tolist()
+            probs = []
+            if before != fresh:
+                probs.append("%s: result %r differs from that of a fresh operator %r" % (oname, before, fresh))
+            if after != fresh:
+                probs.append("%s applied at (x1, 2.0), then at (x2, 5.0, b=3.0): the FIRST result now gives %r instead of %r" % (oname, after, fresh))
+            if probs:
+                out["bad"].append({"operator": oname, "fault": "operator-reuse", "problems": probs, "site": {"oracle": "operator-history"}})
+        except Exception as ex:
+            out["bad"].append({"operator": oname, "fault": "operator-reuse", "problems": ["raised %r" % (ex,)], "site": {"oracle": "operator-history"}})
     # ---- a tracer that outlived its differentiation, used later as a plain constant ----
     for mode in ("rev", "fwd"):
         leak = []
